@@ -371,10 +371,21 @@ func (c *ctx) runShard(bin string, spec ev.ShardSpec, n int) shardResult {
 	defer cancel()
 	args := []string{"-test.run", spec.Test, "-test.timeout", "0", "-test.count", "1"}
 	args = append(args, spec.Args...)
-	argv := append(append(append([]string(nil), spec.Wrap...), bin), args...)
+	wrap := append([]string(nil), spec.Wrap...)
+	env := c.baseEnv(out)
+	if spec.AsNobody {
+		sp, _ := exec.LookPath("setpriv")
+		own := filepath.Join(c.work, fmt.Sprintf("unpriv-%04d", n))
+		_ = os.MkdirAll(own, 0o755)
+		for _, p := range []string{out, prog, own} {
+			_ = os.Chown(p, 65534, 65534)
+		}
+		env = append(env, "VERIF_WORK="+own, "HOME="+own, "TMPDIR="+own)
+		wrap = append(wrap, sp, "--reuid=65534", "--regid=65534", "--clear-groups")
+	}
+	argv := append(append(wrap, bin), args...)
 	cmd := exec.CommandContext(cx, argv[0], argv[1:]...)
 	cmd.Dir = filepath.Join(c.harness, c.engineOf(spec))
-	env := c.baseEnv(out)
 	env = append(env, "VERIF_SHARD="+spec.Name, "VERIF_PROGRESS="+prog)
 	if spec.Range {
 		env = append(env, "VERIF_LO="+strconv.FormatUint(spec.Lo, 10), "VERIF_HI="+strconv.FormatUint(spec.Hi, 10))
@@ -534,6 +545,22 @@ func (c *ctx) run() int {
 		}
 		if extra.Rule != "" {
 			plan.Rule += " || " + extra.Rule
+		}
+	}
+	// shards that must run as an unprivileged user need root (to drop from) and setpriv
+	if _, err := exec.LookPath("setpriv"); err != nil || os.Geteuid() != 0 {
+		kept := plan.Shards[:0]
+		dropped := 0
+		for _, sh := range plan.Shards {
+			if sh.AsNobody {
+				dropped++
+				continue
+			}
+			kept = append(kept, sh)
+		}
+		plan.Shards = kept
+		if dropped > 0 {
+			plan.Assumptions = append(plan.Assumptions, fmt.Sprintf("%d shard(s) that run as an unprivileged user were left out (the check was not started as root, or setpriv is missing): permission errors were only exercised through the sandboxed binary", dropped))
 		}
 	}
 	// replay tier: the saved minimal cases of earlier findings, without any generator
@@ -925,11 +952,14 @@ func (c *ctx) confirmCrash(bins map[string]string, v ev.Violation) bool {
 
 func (c *ctx) replayFile(bins map[string]string, path string, timeout time.Duration) (int, string) {
 	engine := c.engine
+	unprivileged := false
 	if data, err := os.ReadFile(path); err == nil {
 		var v ev.Violation
 		if json.Unmarshal(data, &v) == nil && v.Engine != "" {
 			engine = v.Engine
 		}
+		// cases whose kind starts with "unpriv-" only mean something for a user without special rights
+		unprivileged = strings.HasPrefix(v.Kind, "unpriv-")
 	}
 	bin, ok := bins[engine]
 	if !ok {
@@ -944,9 +974,26 @@ func (c *ctx) replayFile(bins map[string]string, path string, timeout time.Durat
 	_ = os.MkdirAll(out, 0o755)
 	cx, cancel := context.WithTimeout(context.Background(), timeout)
 	defer cancel()
-	cmd := exec.CommandContext(cx, bin, "-test.run", "^TestReplay$", "-test.count", "1", "-test.v", "-test.timeout", "0")
+	argv := []string{bin, "-test.run", "^TestReplay$", "-test.count", "1", "-test.v", "-test.timeout", "0"}
+	env := append(c.baseEnv(out), "VERIF_REPLAY="+path)
+	if sp, err := exec.LookPath("setpriv"); unprivileged && err == nil && os.Geteuid() == 0 {
+		own := filepath.Join(c.work, "replay-unpriv")
+		_ = os.MkdirAll(own, 0o755)
+		_ = os.Chown(own, 65534, 65534)
+		_ = os.Chown(out, 65534, 65534)
+		if data, err := os.ReadFile(path); err == nil {
+			// the replay file may sit where that user cannot read it
+			cp := filepath.Join(own, "case.json")
+			if os.WriteFile(cp, data, 0o644) == nil {
+				env = append(env, "VERIF_REPLAY="+cp)
+			}
+		}
+		env = append(env, "VERIF_WORK="+own, "HOME="+own, "TMPDIR="+own)
+		argv = append([]string{sp, "--reuid=65534", "--regid=65534", "--clear-groups"}, argv...)
+	}
+	cmd := exec.CommandContext(cx, argv[0], argv[1:]...)
 	cmd.Dir = filepath.Join(c.harness, engine)
-	cmd.Env = append(c.baseEnv(out), "VERIF_REPLAY="+path)
+	cmd.Env = env
 	cmd.SysProcAttr = &syscall.SysProcAttr{Setpgid: true}
 	cmd.Cancel = func() error { return syscall.Kill(-cmd.Process.Pid, syscall.SIGKILL) }
 	b, err := cmd.CombinedOutput()
